@@ -12,7 +12,33 @@ fn block_of(mode: u32, head: u128, payload: u128) -> [u8; 16] {
 }
 fn rand128(rng: &mut Rng) -> u128 { ((rng.next() as u128) << 64) | rng.next() as u128 }
 
+/// BC6H: every mode prefix (10 two-region, 4 one-region, 4 reserved) x all 32 partitions x random / extreme payloads, all three precisions
+fn bc6(out: &mut Out, thorough: bool, rng: &mut Rng) {
+    let prefixes: [(u128, u32); 18] = [(0b00, 2), (0b01, 2), (0b00010, 5), (0b00110, 5), (0b01010, 5), (0b01110, 5), (0b10010, 5), (0b10110, 5), (0b11010, 5), (0b11110, 5),
+        (0b00011, 5), (0b00111, 5), (0b01011, 5), (0b01111, 5), (0b10011, 5), (0b10111, 5), (0b11011, 5), (0b11111, 5)];
+    let reps = if thorough { 40 } else { 4 };
+    let mut n = 0usize;
+    for (pi, &(prefix, bits)) in prefixes.iter().enumerate() {
+        let two = pi < 10;
+        for part in 0..(if two { 32u128 } else { 1 }) {
+            let mut payloads: Vec<u128> = vec![0, u128::MAX, 0x5555_5555_5555_5555_5555_5555_5555_5555, 0xAAAA_AAAA_AAAA_AAAA_AAAA_AAAA_AAAA_AAAA];
+            for _ in 0..reps { payloads.push(rand128(rng)); payloads.push(1u128 << rng.below(128)); payloads.push(!(1u128 << rng.below(128))); }
+            // extreme deltas: all endpoint bits of one kind set
+            payloads.push(u128::MAX >> 46); payloads.push(!(u128::MAX >> 46));
+            for p in payloads {
+                let mut v = (p << bits) | prefix;
+                if two { v = (v & !(0x1Fu128 << 77)) | (part << 77); }          // the partition field sits at bits 77..81
+                n += 1;
+                for kind in [11usize, 12] { crate::c03::emit_p(out, kind, false, n % 3, &v.to_le_bytes()); }
+                out.count(&format!("bc6_prefix_{pi}"));
+            }
+        }
+    }
+    for _ in 0..(if thorough { 20000 } else { 1500 }) { let v = rand128(rng); crate::c03::emit_p(out, 11 + rng.below(2) as usize, false, rng.below(3) as usize, &v.to_le_bytes()); out.count("bc6_random"); }
+}
+
 pub fn run(out: &mut Out, thorough: bool, rng: &mut Rng) {
+    bc6(out, thorough, rng);
     let reps = if thorough { 24 } else { 3 };
     let mut n = 0usize;
     for mode in 0..8u32 {
